@@ -250,7 +250,7 @@ func genHostileRoute(t *rapid.T, w *world.World, denom string) kit.Route {
 		case "cctp":
 			options = []string{"mint", "caller", "domain"}
 		case "hyp":
-			options = []string{"token", "rcpt", "hook", "meta", "gas", "fee", "fee", "domain"}
+			options = []string{"token", "rcpt", "hook", "meta", "gas", "fee", "fee", "domain", "charging-hook", "charging-hook"}
 		case "internal":
 			options = []string{"to", "to"}
 		}
@@ -268,6 +268,14 @@ func genHostileRoute(t *rapid.T, w *world.World, denom string) kit.Route {
 			r.Recipient = bytesOfLen(t, l+"/rcpt")
 		case "hook":
 			r.HookID = bytesOfLen(t, l+"/hook")
+		case "charging-hook":
+			// a hook of the environment that computes and charges a fee from the gas limit (an
+			// interchain gas paymaster), with gas limits and fee caps of every magnitude
+			fd := pick(t, l+"/igp", world.IGPDenoms)
+			r.HookID = w.HypIGP[fd]
+			r.GasLimit = kit.AnyBits(t, l+"/igp/gas").String()
+			r.MaxFeeDenom = pick(t, l+"/igp/feed", []string{fd, fd, denom, "ufoo"})
+			r.MaxFeeAmount = kit.AnyBits(t, l+"/igp/fee").String()
 		case "meta":
 			r.HookMeta = pick(t, l+"/meta", []string{"0x", "0xzz", "dead", "0x0", "0x\x00", "0X00", "0x" + strings.Repeat("ab", 3000)})
 		case "gas":
